@@ -182,6 +182,21 @@ def run(repo: Repo, chk: Check, thorough: bool = False) -> None:
            f'ids {sorted(ids)} (e.g. in {sorted(next(iter(ids.values())))[0]}) are valid Python names: for `def main()` the link mod.html#main - in pages, '
            'indexes and objects.inv - lands on the layout <div id="main">, not on the documentation of the function', 'pydoctor/themes')
 
+    # pydoctor's translator prefixes every id and every `#` href that goes through starttag() with `rst-`.  docutils' html4css1 also builds
+    # hrefs as raw strings, outside starttag(): those hooks must be overridden to use the same names (table from reading html4css1)
+    DOCUTILS_RAW_HREF_HOOKS = {'footnote_backrefs': 'the links from a footnote / citation back to its references'}
+    trc = repo.cls('pydoctor.node2stan.HTMLTranslator')
+    st_ = trc.methods.get('starttag')
+    if st_ is None or not any(isinstance(c_, ast.Constant) and isinstance(c_.value, str) and 'rst-' in c_.value for c_ in ast.walk(st_.node)):
+        raise AnalysisError('R11.2: HTMLTranslator.starttag no longer prefixes ids with rst-')
+    for hook, what in sorted(DOCUTILS_RAW_HREF_HOOKS.items()):
+        ov = trc.methods.get(hook)
+        okh = ov is not None and any(isinstance(c_, ast.Constant) and isinstance(c_.value, str) and 'rst-' in c_.value for c_ in ast.walk(ov.node))
+        chk.ob('R11.2', f'node2stan.HTMLTranslator.{hook} :: raw hrefs use the prefixed ids', okh,
+               'overridden, same rst- rule as starttag()' if okh else
+               f'{what} are built by docutils as raw `href="#<id>"` strings while the ids themselves are emitted as `rst-<id>` by starttag(): a reference '
+               '`[1]_` gets id="rst-footnote-reference-1" and its footnote links back to `#footnote-reference-1`, which does not exist', (ov.loc if ov else trc.loc))
+
     # ------------------------------------------------------------------ R11.3
     wd = repo.func(f'{WR}._writeDocsFor')
     cfg = CFG(wd)
